@@ -294,6 +294,20 @@ def small_groups(tier):
                               'spell': [0] * len(ss)})
                 groups.append({'id': 'x-%s-%s' % ('.'.join(ss), '+'.join(sub)),
                                'cases': cases})
+    # seeds with formal charges / hetero-atoms above their default valence
+    # under the wildcard rules (the rules that can touch their N-O, S=O, N-H
+    # bonds): independent of VERIF_SEED
+    for tag, seed in (('nitromethane', 'C[N+](=O)[O-]'),
+                      ('methylammonium', 'C[NH3+]'), ('dmso', 'CS(C)=O')):
+        for sub in (['ANYup', 'ANYbreak', 'ANYdown'], ['ANYbreak', 'ANYup'],
+                    ['ANYdown', 'ANYup'], ['ANYdown', 'ANYbreak'],
+                    ['CH', 'ANYup', 'ANYdown']):
+            cases = [{'seeds': [seed], 'rules': list(sub),
+                      'forms': ['smarts'] * len(sub), 'spell': [0]},
+                     {'seeds': [seed, 'CCO'], 'rules': list(sub[::-1]),
+                      'forms': ['smarts'] * len(sub), 'spell': [0, 0]}]
+            groups.append({'id': 'q-%s-%s' % (tag, '+'.join(sub)),
+                           'cases': cases})
     return groups
 
 
